@@ -14,6 +14,8 @@ var pbcmplFuncs = []string{"pbcmpl.Marshal", "pbcmpl.marshal", "pbcmpl.ReadHeade
 var pbcmplErrExceptions = []errException{
 	{"pbcmpl.marshal", "github.com/golang/protobuf/proto.Marshal", "*github.com/openacid/low/pbcmpl.header", "fixed-size struct -> encoding/binary.Write into a bytes.Buffer cannot fail (stated belief in the source: 'should never encounter error')"},
 	{"pbcmpl.ReadHeader", "github.com/golang/protobuf/proto.Unmarshal", "*github.com/openacid/low/pbcmpl.header", "exactly fixedSize bytes -> encoding/binary.Read of a fixed-size struct cannot fail (buffer length is fixedSize by R-HDRREAD)"},
+	{"pbcmpl.ReadHeader", "(*github.com/openacid/low/pbcmpl.header).Unmarshal", "*github.com/openacid/low/pbcmpl.header", "the same decode reached without the proto.Unmarshal indirection (proto.Unmarshal of a header calls exactly this method): exactly fixedSize bytes -> encoding/binary.Read cannot fail"},
+	{"pbcmpl.marshal", "(*github.com/openacid/low/pbcmpl.header).Marshal", "*github.com/openacid/low/pbcmpl.header", "the same encode reached without the proto.Marshal indirection: fixed-size struct -> encoding/binary.Write into a bytes.Buffer cannot fail"},
 }
 
 func isParamStream(fn *ssa.Function, idx int) func(ssa.Value) bool {
